@@ -78,6 +78,42 @@ def job(j):
     return n, res
 
 
+def job_refuse_one(j):
+    """The inverter refuses ONE settings register (ILLEGAL DATA ADDRESS) - every register of the table in turn: the bulk
+    settings read still returns a dictionary (or fails with an InverterError), also when called again; single reads raise
+    nothing but ValueError."""
+    cfg, part, nparts = j
+    probe = make_rig(cfg, fill=FILLS['ramp'])
+    if probe.call(probe.inv.read_device_info)[0] != 'ok':
+        return 0, []
+    sets = [s for s in probe.inv.settings() if s.offset > 1000][part::nparts]
+    vio = []
+    n = 0
+    for s0 in sets:
+        r = make_rig(cfg, fill=FILLS['ramp'])
+        inv, dev = r.inv, r.dev
+        r.call(inv.read_device_info)
+        dev.refused = list(dev.refused) + [(s0.offset, s0.offset)]
+        for call in (1, 2):
+            res = r.call(inv.read_settings_data)
+            n += 1
+            if res[0] == 'hang' or (res[0] == 'exc' and res[1] not in ('RequestRejectedException', 'RequestFailedException', 'MaxRetriesException')):
+                vio.append((f'settings-data-total/{cfg["family"]}/{res[1] if res[0] == "exc" else res[0]}/one-register-refused',
+                            f'register {s0.offset} ({s0.id_}) refused, call {call}: {str(res)[:100]}'))
+        one = r.call(inv.read_setting, s0.id_)
+        if one[0] == 'exc' and one[1] not in ('ValueError', 'RequestRejectedException'):
+            vio.append((f'read_setting-only-ValueError/{cfg["family"]}/{one[1]}/one-register-refused', f'read_setting({s0.id_!r}): {one[1:]}'))
+    out = {}
+    for key, cause in vio:
+        out.setdefault(key, []).append(dict(key=key, clause=key.split('/')[0], replay=dict(kind='refuse-one', cfg=cfg, part=part, nparts=nparts),
+                                            detail=dict(cause=cause)))
+    res = []
+    for key, lst in out.items():
+        lst[0]['n'] = len(lst)
+        res.append(lst[0])
+    return n, res
+
+
 POLL_CFGS = [dict(family='ET', tag=t, power=p, refused=rf, battery_mode=bm)
              for t, p in (('ETU', 3000), ('ETU', 15000), ('ETT', 10000), ('25KET', 25000))
              for rf in ((), ('meter_ext2',), ('meter_ext', 'meter_ext2'), ('battery', 'mppt'), ('battery2',))
@@ -155,6 +191,9 @@ def run_part(tier, seed, rep):
                 for b in bad[seed % step::step]:
                     jobs.append((c, 'all-0000', (s.id_, b)))
     total = 0
+    for n, res in pmap(job_refuse_one, [(c, k, 4) for c in CFGS if c['family'] == 'ET' for k in range(4)]):      # (the statement covers the bulk read of ET and ES; ES has no per-register refusals)
+        total += n
+        rep.add_many(res)
     for n, res in pmap(job_polls, [(c, f) for c in POLL_CFGS for f in ('ramp', 'all-ffff', 'all-0000', 'changing-a', 'changing-b')], chunksize=2):
         total += n
         rep.add_many(res)
@@ -165,6 +204,11 @@ def run_part(tier, seed, rep):
 
 
 def replay(r):
+    if r.get('kind') == 'refuse-one':
+        cfg = r['cfg']
+        cfg['refused'] = tuple(cfg['refused'])
+        n, res = job_refuse_one((cfg, r['part'], r['nparts']))
+        return dict(calls=n, violations=[(v['key'], v['detail']['cause']) for v in res])
     if r.get('kind') == 'polls':
         cfg = r['cfg']
         cfg['refused'] = tuple(cfg['refused'])
